@@ -290,3 +290,45 @@ def install(E):
     def categorize(I, args, e, c):
         return VBool(atom(('categorize', I.term_of(args[0]), I.term_of(args[1]))))
     S['rsbdd::set::BDDCategorizable::categorize'] = categorize
+
+    # ---- slices / options used by plausible refactorings ----
+    def slice_first(I, args, e, c):
+        v = args[0]
+        if not isinstance(v, VList): raise Undecidable('first on %r' % (v,), e['loc'])
+        if I.list_empty(v.term): return VOption('none')
+        return VOption('some', I.fresh(v.elem, I.list_head(v.term, v.elem, e['loc'])))
+    S['core::slice::<impl [T]>::first'] = slice_first
+    def slice_split_first(I, args, e, c):
+        v = args[0]
+        if not isinstance(v, VList): raise Undecidable('split_first on %r' % (v,), e['loc'])
+        if I.list_empty(v.term): return VOption('none')
+        return VOption('some', VTuple([I.fresh(v.elem, I.list_head(v.term, v.elem, e['loc'])), VList(I.list_tail(v.term, e['loc']), v.elem)]))
+    S['core::slice::<impl [T]>::split_first'] = slice_split_first
+    def opt_map(I, args, e, c):
+        o, f = args
+        if opt_tag(I, o, e['loc']) == 'none': return VOption('none')
+        return VOption('some', I.apply(f, [opt_inner(I, o)], e['loc']))
+    S['std::option::Option::map'] = opt_map
+    def opt_is_some(I, args, e, c): return VBool(const(opt_tag(I, args[0], e['loc']) == 'some'))
+    def opt_is_none(I, args, e, c): return VBool(const(opt_tag(I, args[0], e['loc']) == 'none'))
+    S['std::option::Option::is_some'] = opt_is_some
+    S['std::option::Option::is_none'] = opt_is_none
+    def slice_len(I, args, e, c):
+        v = args[0]
+        if isinstance(v, VList):
+            if v.term[0] == 'nil': return VInt(Lin.const(0))
+            return VInt(Lin.var(('int', 'len(%s)' % show_key(v.term))))
+        raise Undecidable('len on %r' % (v,), e['loc'])
+    S['core::slice::<impl [T]>::len'] = slice_len
+    S['std::vec::Vec::len'] = slice_len
+
+    def it_filter(I, args, e, c):
+        it, f = args
+        it = as_iter(I, it)
+        if not isinstance(it, VIter): raise Undecidable('filter on %r' % (it,), e['loc'])
+        ev = I.fresh(it.elem, ('elem', it.term))
+        r = I.apply(f, [ev], e['loc'])
+        if not isinstance(r, VBool): raise Undecidable('filter with non-bool closure', e['loc'])
+        return VIter(('filter', ('b', r.t), it.term), it.elem)
+    S['trait:std::iter::Iterator::filter'] = it_filter
+    S['std::iter::Iterator::filter'] = it_filter
